@@ -31,6 +31,9 @@ def askJson : Ask → Json
   | .keyDescription der => Json.mkObj [("ask", "keyDescription"), ("der", hex der)]
   | .hardwareDetailsOK der => Json.mkObj [("ask", "hardwareDetailsOK"), ("der", hex der)]
   | .safetyNet raw => Json.mkObj [("ask", "safetyNet"), ("raw", hex raw)]
+  | .jwsHeaders raw => Json.mkObj [("ask", "jwsHeaders"), ("raw", hex raw)]
+  | .jwsChain raw i pool => Json.mkObj [("ask", "jwsChain"), ("raw", hex raw), ("i", i), ("pool", pool)]
+  | .jwsClaims raw leaf => Json.mkObj [("ask", "jwsClaims"), ("raw", hex raw), ("leaf", hex leaf)]
 
 def parseKeyMat (j : Json) : Except String KeyMat := do
   match ← getStr j "kind" with
@@ -57,7 +60,9 @@ def parseCert (j : Json) : Except String CertView := do
 def parseResp (q : Ask) (j : Json) : Except String Resp := do
   if j.isNull then return .none
   match q with
-  | .sha256 _ | .hash _ _ | .urlHost _ | .asn1OctetString _ | .appleNonce _ => return .bytes (← getHex j "bytes")
+  | .sha256 _ | .hash _ _ | .urlHost _ | .asn1OctetString _ | .appleNonce _ | .jwsChain .. | .jwsClaims .. =>
+    return .bytes (← getHex j "bytes")
+  | .jwsHeaders _ => return .nat (← getNat j "nat")
   | .clientData _ => return .clientData ⟨← getHex j "type", ← getHex j "challenge", ← getHex j "origin"⟩
   | .sigVerify .. | .x509CheckSig .. | .hardwareDetailsOK _ => return .bool (← getBool j "bool")
   | .tpmAlgHash _ => return .nat (← getNat j "nat")
